@@ -84,6 +84,37 @@ for A in ('Rad', 'Deg'):
     add('<%s as cgmath::Angle>::atan2' % T, 'a: R, b: R', '%s<R>' % A, '<%s<R> as Angle>::atan2(a, b)' % A)
     add('<%s as cgmath::Angle>::asin' % T, 'a: R', '%s<R>' % A, '<%s<R> as Angle>::asin(a)' % A)
     add('<%s as cgmath::Angle>::acos' % T, 'a: R', '%s<R>' % A, '<%s<R> as Angle>::acos(a)' % A)
+for A in ('Rad', 'Deg'):
+    T = 'cgmath::%s<R>' % A
+    add('<%s as std::ops::Add>::add' % T, 'a: %s<R>, b: %s<R>' % (A, A), '%s<R>' % A, 'a + b')
+    add('<%s as std::ops::Sub>::sub' % T, 'a: %s<R>, b: %s<R>' % (A, A), '%s<R>' % A, 'a - b')
+    add('<%s as std::ops::Rem>::rem' % T, 'a: %s<R>, b: %s<R>' % (A, A), '%s<R>' % A, 'a % b')
+    add('<%s as std::ops::Div>::div' % T, 'a: %s<R>, b: %s<R>' % (A, A), 'R', 'a / b')
+    add('<%s as std::ops::Mul<R>>::mul' % T, 'a: %s<R>, b: R' % A, '%s<R>' % A, 'a * b')
+    add('<%s as std::ops::Div<R>>::div' % T, 'a: %s<R>, b: R' % A, '%s<R>' % A, 'a / b')
+    add('<%s as std::ops::Neg>::neg' % T, 'a: %s<R>' % A, '%s<R>' % A, '-a')
+    for f, op in (('lt', '<'), ('le', '<='), ('gt', '>'), ('ge', '>=')):
+        add('<%s as PartialOrd>::%s' % (T, f), 'a: &%s<R>, b: &%s<R>' % (A, A), 'bool', 'a %s b' % op)
+    add('<%s as PartialOrd>::partial_cmp' % T, 'a: &%s<R>, b: &%s<R>' % (A, A), 'Option<std::cmp::Ordering>', 'a.partial_cmp(b)')
+    add('<%s as cgmath::Angle>::opposite' % T, 'a: %s<R>' % A, '%s<R>' % A, 'a.opposite()')
+    add('<%s as cgmath::Angle>::bisect' % T, 'a: %s<R>, b: %s<R>' % (A, A), '%s<R>' % A, 'a.bisect(b)')
+    add('<%s as cgmath::Zero>::zero' % T, '', '%s<R>' % A, '<%s<R> as Zero>::zero()' % A)
+for S in ('f32', 'f64'):
+    for A in ('Rad', 'Deg'):
+        T = 'cgmath::%s<%s>' % (A, S)
+        AS = '%s<%s>' % (A, S)
+        for f in ('full_turn', 'turn_div_2', 'turn_div_4'):
+            add('<%s as cgmath::Angle>::%s' % (T, f), '', AS, '<%s as Angle>::%s()' % (AS, f))
+        add('<%s as cgmath::Angle>::normalize' % T, 'a: %s' % AS, AS, 'a.normalize()')
+        add('<%s as cgmath::Angle>::normalize_signed' % T, 'a: %s' % AS, AS, 'a.normalize_signed()')
+        add('<%s as cgmath::Zero>::zero' % T, '', AS, '<%s as Zero>::zero()' % AS)
+        add('<%s as std::ops::Add>::add' % T, 'a: %s, b: %s' % (AS, AS), AS, 'a + b')
+        add('<%s as std::ops::Sub>::sub' % T, 'a: %s, b: %s' % (AS, AS), AS, 'a - b')
+        add('<%s as std::ops::Rem>::rem' % T, 'a: %s, b: %s' % (AS, AS), AS, 'a % b')
+        add('<%s as std::ops::Div<%s>>::div' % (T, S), 'a: %s, b: %s' % (AS, S), AS, 'a / b')
+        for f, op in (('lt', '<'), ('le', '<='), ('gt', '>'), ('ge', '>=')):
+            add('<%s as PartialOrd>::%s' % (T, f), 'a: &%s, b: &%s' % (AS, AS), 'bool', 'a %s b' % op)
+        add('<%s as PartialOrd>::partial_cmp' % T, 'a: &%s, b: &%s' % (AS, AS), 'Option<std::cmp::Ordering>', 'a.partial_cmp(b)')
 out = ['//! GENERATED by tools/gen_shims.py -- do not edit.  See that file for the rationale.', '#![allow(non_snake_case)]', 'use crate::*;', 'use cgmath::*;', '']
 seen = set()
 for callee, params, ret, body in E:
